@@ -61,18 +61,20 @@ fn main() {
         let tries: u64 = args[3].parse().unwrap_or(10000);
         let mut state: u64 = args[4].parse::<u64>().unwrap_or(1).wrapping_mul(0x9E3779B97F4A7C15) | 1;
         let mut next = || { state ^= state << 13; state ^= state >> 7; state ^= state << 17; state };
-        let mut buf = vec![0u8; 160];
+        let mut buf = vec![0u8; 400];
+        let mut accepted = 0u64;
         for t in 0..tries {
             // early tries: constant strings (every draw gets the same palette index), then random
             if t < 64 { for b in buf.iter_mut() { *b = t as u8; } } else { for b in buf.iter_mut() { *b = (next() >> 24) as u8; } }
             let (rc, msg, _, _) = run_once(*f, &buf, true);
+            if rc == 0 { accepted += 1; }
             if rc == 1 {
                 let hex: String = buf.iter().map(|b| format!("{:02x}", b)).collect();
                 println!("FOUND {} message={:?}", hex, msg);
                 std::process::exit(1);
             }
         }
-        println!("NOT-FOUND after {} palette inputs", tries);
+        println!("NOT-FOUND after {} palette inputs ({} satisfied the harness pre-condition)", tries, accepted);
         return;
     }
     let palette = args.len() == 4 && args[3] == "--palette";
